@@ -71,14 +71,16 @@ ASSUMPTIONS = [
 ]
 FLOORS = {
     "quick": {
-        "enum_points_decided": 40, "pathwise_const_decided": 40, "pathwise_stream_decided": 20, "script_instances_decided": 60,
-        "script_leaves": 600, "stat_tests": 80, "equiv_grad_vs_jvp": 60, "equiv_jit_vs_eager": 30, "equiv_mvmap": 30,
-        "programs_with_cond": 10, "programs_two_estimator_kinds": 25, "forward_law_identified": 1,
+        "enum_points_decided": 30, "enum_key_pairs_bitequal": 30, "pathwise_const_decided": 40, "pathwise_stream_decided": 20,
+        "script_instances_decided": 60, "script_leaves": 600, "stat_tests": 80, "equiv_grad_vs_jvp": 60, "equiv_jit_vs_eager": 20,
+        "equiv_mvmap": 30, "programs_with_cond": 10, "programs_two_estimator_kinds": 25, "forward_law_identified": 1,
+        "batched_sites_decided": 15,
     },
     "thorough": {
-        "enum_points_decided": 400, "pathwise_const_decided": 400, "pathwise_stream_decided": 200, "script_instances_decided": 600,
-        "script_leaves": 6000, "stat_tests": 600, "equiv_grad_vs_jvp": 400, "equiv_jit_vs_eager": 200, "equiv_mvmap": 200,
-        "programs_with_cond": 80, "programs_two_estimator_kinds": 200, "forward_law_identified": 1,
+        "enum_points_decided": 150, "enum_key_pairs_bitequal": 150, "pathwise_const_decided": 200, "pathwise_stream_decided": 100,
+        "script_instances_decided": 300, "script_leaves": 3000, "stat_tests": 400, "equiv_grad_vs_jvp": 300, "equiv_jit_vs_eager": 100,
+        "equiv_mvmap": 150, "programs_with_cond": 50, "programs_two_estimator_kinds": 120, "forward_law_identified": 1,
+        "batched_sites_decided": 60,
     },
 }
 TIMEOUT_S = {"quick": 3600, "thorough": 10800}  # watchdog only (shared machine); see CASE_BUDGET_S
@@ -105,7 +107,7 @@ for _p in R.CREINF:
 def plan(tier, seed):
     quick = tier == "quick"
     npts = 2 if quick else 4
-    counts = {"enum": 18, "pathwise": 20, "script": 34, "stat": 22} if quick else {"enum": 150, "pathwise": 170, "script": 300, "stat": 150}
+    counts = {"enum": 16, "pathwise": 18, "script": 30, "stat": 20} if quick else {"enum": 100, "pathwise": 110, "script": 200, "stat": 100}
     cases = []
 
     def add(family, spec, tag, unit=None, n=npts):
@@ -130,6 +132,7 @@ def plan(tier, seed):
         if prim == "normal_reinforce":
             add("script", R.unit_program(prim, 1), "unit-gh:normal_reinforce", unit=prim)
     add("enum", R.unit_cond_site_program(), "unit:site-inside-cond-branch")
+    add("enum", R.unit_cond_after_parallel_program(), "unit:cond-under-parallel-enumeration")
     for fam in ("enum", "pathwise", "script", "stat"):
         for j in range(counts[fam]):
             rng = np.random.default_rng([int(seed), 11, {"enum": 1, "pathwise": 2, "script": 3, "stat": 4}[fam], j])
@@ -554,36 +557,49 @@ def mon_script(ctx, prog, th, v, rng, with_grad=False, count=True, family="scrip
 
 
 def mon_stream(ctx, prog, th, v, rng, count=True):
-    """independent logged noise per draw (observe mode); decides only when the primal confirms the consumption order"""
+    """independent logged noise per draw (observe mode).  The host call-backs of independent sites are unordered, so
+    the assignment of logged draws to sites is found by matching the primal (all orders of the host calls of one kind
+    are tried; a coincidental match of a float32 primal with independent random noise has negligible probability);
+    the tangent is then compared under that assignment.  No assignment found -> counted as unresolved, not decided
+    (the constant-noise run above decides those programs)."""
+    import itertools
+
     HOST = _W["HOST"]
     spec = prog.spec
     HOST.reset("observe", seed=int(rng.integers(1 << 30)))
     p, t = _run(ctx, prog, "jvp", "host", _key(0), *prog.args(th, v))
-    evs = list(HOST.events)
-    stream = []
-    for e in evs:
-        if e.kind == "mvn":
-            stream += [float(z) for z in e.std]
-        elif e.std is not None:
-            stream.append(float(e.std))
-    ref = R.Ref(spec)
-    pols = []
-
-    def mk():
-        pol = R.Policy("stream", stream=stream)
-        pols.append(pol)
-        return pol
-
-    e0, d0 = ref.value_and_dir(th, v, mk)
-    if pols[0].underflow or pols[0].used != len(stream) or not _ok(p, e0):
+    groups = {"normal": {}, "uniform": {}, "mvn": {}}
+    for e in HOST.events:
+        if e.kind in groups:
+            zs = [float(z) for z in e.std] if e.kind == "mvn" else [float(e.std)]
+            groups[e.kind].setdefault(e.call, []).extend(zs)
+    calls = {k: [g[c] for c in sorted(g)] for k, g in groups.items()}
+    for k in ("normal", "uniform"):  # few draws: permute single draws (lanes of a vectorised continuation share a call)
+        flat = [z for c in calls[k] for z in c]
+        if len(flat) <= 6:
+            calls[k] = [[z] for z in flat]
+    ndraw = sum(len(z) for k in calls for z in calls[k])
+    orders = [list(itertools.permutations(range(len(calls[k])))) for k in ("normal", "uniform", "mvn")]
+    if len(orders[0]) * len(orders[1]) * len(orders[2]) > 800:
         ctx.count("pathwise_stream_order_unresolved")
         return
-    if not _ok(t, d0, abs(d0)):
-        raise Fail("tangent-per-draw", {**_th_detail(th, v), "logged_noise": stream, "primal": float(p), "tangent": float(t),
-                                        "reference_value": e0, "reference_tangent": d0})
-    if count:
-        ctx.count("pathwise_stream_decided")
-        ctx.count("pathwise_noise_draws_logged", len(stream))
+    ref = R.Ref(spec)
+    for on, ou, om in itertools.product(*orders):
+        stream = {"normal": [z for i in on for z in calls["normal"][i]], "uniform": [z for i in ou for z in calls["uniform"][i]],
+                  "mvn": [z for i in om for z in calls["mvn"][i]]}
+        pol = R.Policy("stream", stream=stream)
+        e0 = ref.expect(th, pol)
+        if pol.underflow or pol.used != ndraw or not _ok(p, e0):
+            continue
+        _, d0 = ref.value_and_dir(th, v, lambda: R.Policy("stream", stream=stream))
+        if not _ok(t, d0, abs(d0)):
+            raise Fail("tangent-per-draw", {**_th_detail(th, v), "logged_noise": stream, "primal": float(p), "tangent": float(t),
+                                            "reference_value": e0, "reference_tangent": d0})
+        if count:
+            ctx.count("pathwise_stream_decided")
+            ctx.count("pathwise_noise_draws_logged", ndraw)
+        return
+    ctx.count("pathwise_stream_order_unresolved")
 
 
 def _ztest(ctx, name, x, ref, det):
@@ -634,10 +650,11 @@ def mon_stat(ctx, prog, th, v, count=True):
         ctx.count("stat_points_decided")
 
 
-def mon_equiv(ctx, prog, th, v, pts, rng, do_eager, do_mvmap, count=True):
+def mon_equiv(ctx, prog, th, v, pts, rng, do_eager, do_mvmap, count=True, do_unseeded=False, deterministic=False):
     jnp = _W["jnp"]
     HOST = _W["HOST"]
-    k = _key(int(rng.integers(5, 500)))
+    kid = int(rng.integers(5, 500))
+    k = _key(kid)
     a = prog.args(th, v)
     p, t = _run(ctx, prog, "jvp", "jit", k, *a)
     g = _run(ctx, prog, "grad", "jit", k, *prog.args(th))
@@ -658,7 +675,7 @@ def mon_equiv(ctx, prog, th, v, pts, rng, do_eager, do_mvmap, count=True):
         basis = np.asarray(basis).reshape(gi.shape)
         if not _ok(gi, basis, float(np.max(np.abs(basis)))):
             raise Fail("grad-vs-jvp-basis", {**_th_detail(th), "argument": nm, "grad_estimate": gi.tolist(),
-                                             "jvp_basis_tangents": basis.tolist(), "key": "jax.random.key(%d)" % 0})
+                                             "jvp_basis_tangents": basis.tolist(), "key": "jax.random.key(%d)" % (1000 + kid)})
         lin += float(np.sum(basis * _f64(v[nm])))
         mag += float(np.sum(np.abs(basis * _f64(v[nm]))))
     if not _ok(t, lin, mag):
@@ -676,6 +693,20 @@ def mon_equiv(ctx, prog, th, v, pts, rng, do_eager, do_mvmap, count=True):
             raise Fail("jit-vs-eager", {**_th_detail(th, v), "eager": [float(pe), float(te)], "jit": [float(p), float(t)]})
         if count:
             ctx.count("equiv_jit_vs_eager")
+    if do_unseeded:
+        # no seed transformation: keys come from genjax's global counter
+        raw = prog._build(False)["jvp"]
+        r = _guard(ctx, lambda: raw(*a))
+        if hasattr(r, "brief"):
+            raise Fail("raises:" + r.type, {"entry": "jvp", "variant": "unseeded-eager", **r.brief()})
+        pu, tu = r
+        bad = not (np.isfinite(float(pu)) and np.isfinite(float(tu)))
+        if deterministic:
+            bad = bad or not (_ok(pu, p, abs(float(p))) and _ok(tu, t, mag))
+        if bad:
+            raise Fail("unseeded-vs-seeded", {**_th_detail(th, v), "unseeded": [float(pu), float(tu)], "seeded_jit": [float(p), float(t)]})
+        if count:
+            ctx.count("equiv_unseeded_runs")
     if do_mvmap:
         geo = _geo_param(ctx) if _has_geo(prog.spec) else "probs"
         eps = round(float(rng.uniform(0.3, 1.2) * rng.choice([-1, 1])), 3)
@@ -761,10 +792,10 @@ def _unit_fails(ctx, label, monitor):
     return cache[ck]
 
 
-def _cond_site_unit_fails(ctx):
+def _cond_site_unit_fails(ctx, which="cond-site"):
     cache = _W["unit_cache"]
-    if "cond-site" not in cache:
-        spec = R.unit_cond_site_program()
+    if which not in cache:
+        spec = R.unit_cond_site_program() if which == "cond-site" else R.unit_cond_after_parallel_program()
         rng = np.random.default_rng([11, 98])
         bad = False
         try:
@@ -774,8 +805,8 @@ def _cond_site_unit_fails(ctx):
                 mon_enum(_Quiet(ctx), prog, th, v, count=False)
         except Fail:
             bad = True
-        cache["cond-site"] = bad
-    return cache["cond-site"]
+        cache[which] = bad
+    return cache[which]
 
 
 def _culprit(ctx, spec, monitor, quantity):
@@ -785,6 +816,8 @@ def _culprit(ctx, spec, monitor, quantity):
         return "+".join(bad)
     if R.has_site_in_cond(spec) and not quantity.startswith("raises") and _cond_site_unit_fails(ctx):
         return "site-inside-cond-branch"
+    if R.has_cond_after_parallel(spec) and quantity.startswith("raises") and _cond_site_unit_fails(ctx, "cond-after-parallel"):
+        return "cond-under-parallel-enumeration"
     if len(labels) == 1:
         return labels[0]
     return "composed(" + "+".join(sorted({lb.split("[")[0] for lb in labels})) + (",cond" if R.has_cond(spec) else "") + ")"
@@ -799,7 +832,7 @@ QUANTITY_CLASS = {
 
 def violation_key(monitor, culprit, quantity):
     """mechanism key: <monitor>|<culprit>|<observable class>; the exact quantity goes to the detail"""
-    if culprit == "site-inside-cond-branch":
+    if culprit in ("site-inside-cond-branch", "cond-under-parallel-enumeration"):
         monitor = "cond"
     return f"{monitor}|{culprit}|{QUANTITY_CLASS.get(quantity, quantity)}"
 
@@ -878,7 +911,8 @@ def _run_case(case, ctx):
         th, v = pts[0]
         try:
             mon_equiv(ctx, prog, th, v, pts if len(pts) > 1 else pts * 2, rng, do_eager=(case.get("index", 0) % 3 == 0),
-                      do_mvmap=(case.get("index", 0) % 2 == 1 or bool(case.get("unit"))))
+                      do_mvmap=(case.get("index", 0) % 2 == 1 or bool(case.get("unit"))),
+                      do_unseeded=(case.get("index", 0) % 6 == 0), deterministic=(family == "enum"))
         except Fail as f:
             report("equiv", f, th)
     if state["decided"]:
